@@ -46,6 +46,43 @@ RULE_DEPS = {
 }
 
 
+# operations whose whole effect happens in one pass over the messages: the pass must be reached on every call
+# (an early `return` taken from a guess about the first message silently turns the operation into a no-op for some inputs;
+# raising on invalid arguments is not an early return)
+REACH = {
+    "RelativeSequence.transpose": "the shift of every note",
+    "RelativeSequence.normalise_relative": "the normalisation pass",
+    "RelativeSequence.pad": "the length measurement",
+    "RelativeSequence.concatenate": "the appending of the given sequences",
+    "AbsoluteSequence.quantise": "the quantisation pass",
+    "AbsoluteSequence.to_relative_sequence": "the conversion pass",
+    "RelativeSequence.to_absolute_sequence": "the conversion pass",
+    "RelativeSequence.get_sequence_duration_relation": "the duration sum",
+    "AbsoluteSequence.get_message_pairings": "the pairing pass",
+    "AbsoluteSequence.get_message_times_of_type": "the collection pass",
+}
+
+
+def reach_rule(ctx: Ctx, functions) -> None:
+    import ast
+    from ..astutil import early_exits_before, path_conditions, short, src
+    for q in sorted(functions):
+        what = REACH.get(q)
+        fi = ctx.p.functions.get(q)
+        if what is None or fi is None:
+            continue
+        loops = [n for n in fi.node.body if isinstance(n, (ast.For, ast.While))
+                 or (isinstance(n, ast.Assign) and isinstance(n.value, ast.ListComp))]
+        main = next((n for n in loops if "_messages" in src(n.iter if isinstance(n, ast.For) else n) or isinstance(n, ast.For) and src(n.iter) in fi.params), None)
+        if main is None:
+            continue
+        ex = [x for x in early_exits_before(fi.node, main) if isinstance(x, ast.Return)]
+        ctx.check(not ex, "REACH", f"{q}: {what} is reached on every call", function=q,
+                  construct=f"{q.split('.')[-1]} can return before {what}",
+                  message=f"`{short(ex[0]._parent if ex and hasattr(ex[0], '_parent') else (ex[0] if ex else None), 80)}`: for the inputs that take this exit the operation does nothing",
+                  file=fi.file, node=ex[0] if ex else main)
+
+
 def view_deps(ctx: Ctx) -> None:
     for f in RULE_DEPS.get(ctx.prop, []):
         f(ctx)
@@ -284,6 +321,7 @@ def dependency_closure(ctx: Ctx) -> None:
     mutable_default_rule(sub, reach | set(roots))
     from ..engines.structure import lazy_state_rule
     lazy_state_rule(sub, {fi.qualname for fi in ctx.p.all_functions()})      # object state anywhere in the library
+    reach_rule(sub, reach | set(roots))
     check_tables_immutable(sub, "IMMUT")
     for o in sub.obligations:
         ctx.obligations.append(o)
